@@ -142,7 +142,7 @@ impl Check for GrHelper {
                     if rng.coin() {
                         ops.push(jarr!["enable"]);
                     } else {
-                        ops.push(jarr!["admin", *rng.pick(&["shutdown", "disable", "reset", "delete"])]);
+                        ops.push(jarr!["admin", *rng.pick(&["shutdown", "disable", "reset", "delete", "stop-bgp"])]);
                     }
                 }
             }
@@ -163,7 +163,7 @@ impl Check for GrHelper {
 
     fn info(&self) -> CheckInfo {
         CheckInfo {
-            rule: "one GR/LLGR-configured neighbour (family sets, N-bit, restart 5/30/120 s, LLGR 10/60/600 s drawn per run) on a real session; history of announce/withdraw (some with NO_LLGR), drops by FIN / RST / silence->hold expiry / received Cease, hard-reset and non-Cease NOTIFICATIONs / operator shutdown, disable, hard reset, delete (and configure again) / malformed UPDATE, reconnects with the same, fewer or no GR/LLGR families, attempts that fail at OPEN or die before/after Established, End-of-RIB per family, waits of 10-250% of each timer. Invariants at every quiescent point, read from PeerContext and the RIB: (I1) a retained path (stale, LLGR-stale, or from an earlier session) implies restart timer armed, LLGR timer armed for its family, or EOR awaited on the live session; (I2) after a drop no path of a family outside the negotiated GR/LLGR sets remains; (I3) what the live session announced is in the RIB; (I4) hard reset / admin shutdown / non-Cease error leave nothing behind; (I5) no NO_LLGR path is LLGR-stale; (I6) TCP failure with GR keeps and stales the routes; bounded liveness after the last fault. non-trivial = some path was retained across a session drop".into(),
+            rule: "one GR/LLGR-configured neighbour (family sets, N-bit, restart 5/30/120 s, LLGR 10/60/600 s drawn per run) on a real session; history of announce/withdraw (some with NO_LLGR), drops by FIN / RST / silence->hold expiry / received Cease, hard-reset and non-Cease NOTIFICATIONs / operator shutdown, disable, hard reset, delete (and configure again), StopBgp (and StartBgp, configure again) / malformed UPDATE, reconnects with the same, fewer or no GR/LLGR families, attempts that fail at OPEN or die before/after Established, End-of-RIB per family, waits of 10-250% of each timer. Invariants at every quiescent point, read from PeerContext and the RIB: (I1) a retained path (stale, LLGR-stale, or from an earlier session) implies restart timer armed, LLGR timer armed for its family, or EOR awaited on the live session; (I2) after a drop no path of a family outside the negotiated GR/LLGR sets remains; (I3) what the live session announced is in the RIB; (I4) hard reset / admin shutdown / non-Cease error leave nothing behind; (I5) no NO_LLGR path is LLGR-stale; (I6) TCP failure with GR keeps and stales the routes; bounded liveness after the last fault. non-trivial = some path was retained across a session drop".into(),
             components_real: vec!["PeerSession::{run,session_loop}, apply_disconnect, gr_on_disconnect, families_to_drop_on_disconnect, gr_restart_timer_expired, llgr_timer_expired, spawn_llgr_timers, process_effects".into(), "gr::GrState".into(), "TableManager::{unregister_peer,drop_stale_families,mark_llgr_stale,drop_llgr_stale_families}, table::Table".into(), "GrpcService::{shutdown_peer,disable_peer,enable_peer,reset_peer}".into()],
             components_stubbed: vec!["TCP, clock, listener loop, the restarting peer (scripted)".into()],
             assumptions: vec!["timer 'armed' = oneshot sender present and its task alive (Sender::is_closed() == false)".into(), "1 s slack on bounded liveness".into()],
@@ -236,6 +236,7 @@ async fn run(case: Json, tol: Tolerate) -> Outcome {
     };
     let mut retained_seen = false;
     let mut deleted = false;
+    let mut stopped = false;
     let mut orphans: Vec<Arc<std::sync::Mutex<PeerContext>>> = Vec::new();
     let mut silent = false;
     let mut old_before_drop = 0usize;
@@ -417,6 +418,16 @@ async fn run(case: Json, tol: Tolerate) -> Outcome {
                         let _ = t.w.grpc.disable_peer(tonic::Request::new(api::DisablePeerRequest { address: addr.to_string(), ..Default::default() })).await;
                         m.admin_down = true;
                     }
+                    "stop-bgp" => {
+                        // StopBgp (and, at the next `enable`, StartBgp and the neighbour configured again)
+                        if let Some(p) = t.w.global.read().await.peers.get(&addr) {
+                            orphans.push(p.context.clone());
+                        }
+                        let _ = t.w.grpc.stop_bgp(tonic::Request::new(api::StopBgpRequest { allow_graceful_restart: false })).await;
+                        m.admin_down = true;
+                        deleted = true;
+                        stopped = true;
+                    }
                     "delete" => {
                         // the neighbour is removed from the configuration (and configured again at the next
                         // `enable`); its timers live on in the context the timer tasks hold
@@ -437,6 +448,11 @@ async fn run(case: Json, tol: Tolerate) -> Outcome {
             "enable" => {
                 if m.admin_down {
                     if deleted {
+                        if stopped {
+                            let req = api::StartBgpRequest { global: Some(api::Global { asn: DUT_AS, router_id: "10.0.0.254".to_string(), listen_port: -1, ..Default::default() }) };
+                            let _ = t.w.grpc.start_bgp(tonic::Request::new(req)).await;
+                            stopped = false;
+                        }
                         let _ = t.w.global.write().await.add_peer(ps_again.params(), Some(t.w.active_tx.clone()));
                         deleted = false;
                     } else {
